@@ -148,6 +148,9 @@ func runC09(x *Ctx) {
 	boundsChecks(x, R)
 	typeAsserts(x, fns)
 	iteratorProtocol(x, fns)
+	// a deferred recover that turns a panic into an error must put it into a named result
+	deferredErrorCellsRule(x, R, "C09.P1")
+	nilCursors(x, fns)
 	loopsRule(x, fns)
 	recursionRules(x, fns, R)
 	allocations(x, fns)
@@ -1163,6 +1166,14 @@ func recursionRules(x *Ctx, fns []*ssa.Function, R map[*ssa.Function]bool) {
 	sort.Slice(rec, func(i, j int) bool { return load.ShortName(rec[i]) < load.ShortName(rec[j]) })
 	x.C.Extra["recursive_functions"] = len(rec)
 	growBad := ""
+	sameEdges := map[*ssa.Function][]*ssa.Function{}
+	sameSites := map[*ssa.Function][]string{}
+	type obl struct {
+		f   *ssa.Function
+		n   int
+		bad string
+	}
+	var obls []obl
 	for _, f := range rec {
 		ps := x.pathsQuiet(f)
 		bad := ""
@@ -1181,13 +1192,21 @@ func recursionRules(x *Ctx, fns []*ssa.Function, R map[*ssa.Function]bool) {
 				seen[c] = true
 				n++
 				ct := p.Term(c)
-				descends := false
+				descends, same := false, false
 				for _, a := range ct.Args {
 					if isSubTermOfParam(a) {
 						descends = true
 					}
+					if a != nil && (a.Op == "param" || a.Op == "freevar") {
+						same = true
+					}
 				}
-				if !descends {
+				if !descends && same && g != f {
+					// the parameter is handed on unchanged to another function of the cycle (a helper between two
+					// levels of the recursion): fine as long as every cycle through this call descends somewhere
+					sameEdges[f] = append(sameEdges[f], g)
+					sameSites[f] = append(sameSites[f], x.P.Pos(c.Pos())+": "+ct.String())
+				} else if !descends {
 					bad += x.P.Pos(c.Pos()) + ": recursive call " + ct.String() + " does not pass a strict sub-term of a parameter\n"
 				}
 				// M2: growing string / slice parameter
@@ -1218,7 +1237,36 @@ func recursionRules(x *Ctx, fns []*ssa.Function, R map[*ssa.Function]bool) {
 		if f.Parent() != nil && n == 0 {
 			continue
 		}
-		x.C.Obl("C09.T2", "recursion:"+load.ShortName(f), x.pos(f), fmt.Sprintf("the %d recursive call(s) of %s descend into a strict sub-term (field, list element, iterator value, lookup) of a parameter", n, load.ShortName(f)), bad == "", bad)
+		obls = append(obls, obl{f, n, bad})
+	}
+	// a cycle made only of calls that hand the parameter on unchanged never descends
+	for i := range obls {
+		f := obls[i].f
+		seenF := map[*ssa.Function]bool{}
+		var reach func(g *ssa.Function) bool
+		reach = func(g *ssa.Function) bool {
+			if g == f {
+				return true
+			}
+			if seenF[g] {
+				return false
+			}
+			seenF[g] = true
+			for _, h := range sameEdges[g] {
+				if reach(h) {
+					return true
+				}
+			}
+			return false
+		}
+		for k, g := range sameEdges[f] {
+			if reach(g) {
+				obls[i].bad += sameSites[f][k] + ": the recursion comes back to " + load.ShortName(f) + " through calls that all pass their parameter unchanged: nothing gets smaller\n"
+			}
+		}
+	}
+	for _, o := range obls {
+		x.C.Obl("C09.T2", "recursion:"+load.ShortName(o.f), x.pos(o.f), fmt.Sprintf("the %d recursive call(s) of %s descend into a strict sub-term (field, list element, iterator value, lookup) of a parameter, or hand it on to a function of the cycle that does", o.n, load.ShortName(o.f)), o.bad == "", o.bad)
 	}
 	x.C.Obl("C09.M2", "no-growing-parameter", "-", "no recursive call passes a string / slice that is a function of the contents of the caller's own parameter", growBad == "", growBad)
 }
